@@ -92,6 +92,7 @@ def gen(rng: random.Random, k: int, tier: str) -> dict:
            "codes": rng.sample(CODES, rng.randint(1, 5)), "len": rng.randint(6, 40),
            "switch_w": rng.choice([0.0, 0.5, 1.5, 3.0]), "fault_rate": rng.choice([0.0, 0.1, 0.3])}
     ops, live, nextid = [], {}, 0
+    a0s = {}
     cur = "numpy"
     budget = 120.0
     if rng.random() < 0.7:
@@ -109,14 +110,28 @@ def gen(rng: random.Random, k: int, tier: str) -> dict:
         kind = rng.choices(kinds, weights=[w[x] for x in kinds])[0]
         if kind == "create":
             code = rng.choice(cfg["codes"])
-            ops.append({"op": "create", "id": nextid, "code": code, "hist": _gen_hist(rng, code)})
+            op = {"op": "create", "id": nextid, "code": code, "hist": _gen_hist(rng, code)}
+            if code == 4 and rng.random() < 0.4:
+                op["alpha0"] = rng.choice([0.5, 1.5, 2.0, 3.0])   # exactly representable breakpoints
+            ops.append(op)
             live[nextid] = len(ops[-1]["hist"])
+            a0s[nextid] = op.get("alpha0", 1.0)
             nextid += 1
             budget -= 0.5
         elif kind == "call":
             oid = rng.choice(sorted(live))
             na = rng.choice([1, 1, 2, 3, 5])
-            ops.append({"op": "call", "id": oid, "alphas": [[_alpha(rng) for _ in range(na)] for _ in range(live[oid])]})
+            al = [[_alpha(rng) for _ in range(na)] for _ in range(live[oid])]
+            a0 = a0s.get(oid, 1.0)
+            if a0 != 1.0:
+                # the breakpoints of this instance are at +-alpha0
+                for row in al:
+                    for j in range(len(row)):
+                        if rng.random() < 0.35:
+                            b = rng.choice([a0, -a0])
+                            row[j] = rng.choice([b, float(np.nextafter(np.float64(b), math.inf)), float(np.nextafter(np.float64(b), -math.inf)),
+                                                 float(np.nextafter(np.float32(b), np.float32(math.inf))), float(np.nextafter(np.float32(b), np.float32(-math.inf)))])
+            ops.append({"op": "call", "id": oid, "alphas": al})
             budget -= COST[cur]
         elif kind == "switch":
             cur = rng.choice(backends)
@@ -186,8 +201,9 @@ class World:
     def op_create(self, op):
         if op["id"] in self.objs:
             return "dup"
-        itp = self.pyhf.interpolators.get(op["code"])(op["hist"])
-        self.objs[op["id"]] = {"code": op["code"], "hist": op["hist"], "obj": itp, "last_shape": None, "switches": 0, "ncalls": 0}
+        kw = {"alpha0": op["alpha0"]} if op.get("alpha0") is not None else {}
+        itp = self.pyhf.interpolators.get(op["code"])(op["hist"], **kw)
+        self.objs[op["id"]] = {"code": op["code"], "hist": op["hist"], "obj": itp, "kw": kw, "last_shape": None, "switches": 0, "ncalls": 0}
         return str(op["code"])
 
     def op_drop(self, op):
@@ -212,13 +228,14 @@ class World:
         return "/".join(new)
 
     def _regime(self, a):
+        b = getattr(self, "_a0", 1.0)   # breakpoint of the instance being judged
         if a == 0:
             return "zero"
-        if a == 1:
+        if a == b:
             return "plus1"
-        if a == -1:
+        if a == -b:
             return "minus1"
-        if abs(a) < 1:
+        if abs(a) < b:
             return "core"
         return "extrap_hi" if a > 0 else "extrap_lo"
 
@@ -245,6 +262,7 @@ class World:
             ctx.fail("call_ok", dict(sig0, cls="raises"), f"code{code} call with shape {shape} after last shape {o['last_shape']} raised {type(e).__name__}: {e}; backend={self.reg}")
             o["last_shape"] = shape
             return "raised"
+        self._a0 = o["kw"].get("alpha0", 1.0)
         regimes = sorted({self._regime(a) for a in al.ravel()})
         for r in regimes:
             ctx.probe("hit_" + ("breakpoint_" + r if r in ("plus1", "minus1") else r))
@@ -257,22 +275,26 @@ class World:
             nontriv = True
         if nontriv:
             ctx.mark_nontrivial([str(code), self.reg, o["last_shape"], shape, min(o["switches"], 3), regimes])
-        ctx.state([str(code), self.reg, o["last_shape"], shape, min(o["switches"], 2)])
+        ctx.state([str(code), self.reg, o["last_shape"], shape, min(o["switches"], 2), self._a0])
         # 1. history independence ------------------------------------------------
-        fresh = pyhf.interpolators.get(code)(o["hist"])
+        fresh = pyhf.interpolators.get(code)(o["hist"], **o["kw"])
         want = call(fresh)
         ok, idx, why = core.ulp_close(got, want, 8, eps, atol=1e-300)
         ctx.check(ok, "history", dict(sig0, cls="history"),
                   lambda: f"code{code}: result depends on history: last shape {o['last_shape']}, now {shape}, switches survived {o['switches']}, backend={self.reg}: {why} at {idx}")
         # 2. reference model -------------------------------------------------------
-        ref = R.REF[code]
+        a0 = o["kw"].get("alpha0", 1.0)
+        self._a0 = a0
+        if a0 != 1.0:
+            ctx.probe("code4_nondefault_alpha0")
+        ref = (lambda dn, nom, up, a: R.code4(dn, nom, up, a, alpha0=a0)) if code == 4 else R.REF[code]
         exp_shape = (hist.shape[0], hist.shape[1], al.shape[1], hist.shape[3])
         ctx.check(got.shape == exp_shape, "formula", dict(sig0, cls="shape"), f"shape {got.shape} expected {exp_shape}")
         if got.shape == exp_shape:
             self._cmp_ref(got, ref, hist, al, eps, sig0, "fast", code)
         # 3. fast = slow ------------------------------------------------------------
         try:
-            slow = np.asarray(tl.tolist(pyhf.interpolators.get(code, do_tensorized_calc=False)(o["hist"])(tl.astensor(al))), dtype=np.float64)
+            slow = np.asarray(tl.tolist(pyhf.interpolators.get(code, do_tensorized_calc=False)(o["hist"], **o["kw"])(tl.astensor(al))), dtype=np.float64)
         except Exception as e:
             ctx.fail("fast_slow", dict(sig0, cls="slow_raises"), f"slow code{code} raised {type(e).__name__}: {e}")
             slow = None
